@@ -183,7 +183,11 @@ def process(ctx: Ctx, cases: list[dict]) -> None:
                 sd2 = NativeParser().parse_file(td2 / "o")
             obs2 = observed_comments(sd2)
             for path, (lc, bc) in exp.items():
-                lc2 = [(t.rstrip() if t is not None else t) for t in lc]
+                lc2 = []
+                for t in lc:      # comments that differ only in trailing blanks are identical once written
+                    t = t.rstrip() if t is not None else t
+                    if t not in lc2:
+                        lc2.append(t)
                 got = obs2.get(path, ([], []))[0]
                 if got != lc2 and [g for g in got if g in lc2] != lc2:
                     ctx.violation("line comments are not written at their level in their original order", c, {"path": list(path), "got": got, "out": out}, lc2); break
